@@ -10,7 +10,8 @@ LEAN_MODULE = "Proofs.C01"
 _T = "SE.Proofs.C01."
 _THEOREM_NAMES = ["C01_roundtrip_general", "C01_save_total", "C01_roundtrip", "C01_roundtrip_dir", "C01_relocate",
                   "C01_fixpoint", "C01_fixpoint_dir", "C01_same_type_save", "C01_same_type_load", "C01_same_type",
-                  "C01_type_dispatch", "C01_wf_of_wfB", "C01_wfB_iff"]
+                  "C01_type_dispatch", "C01_wf_of_wfB", "C01_wfB_iff", "C01_load_gate_iff", "C01_load_gate_not_found",
+                  "C01_load_file_type"]
 THEOREMS = [_T + n for n in _THEOREM_NAMES]
 LEVEL_TEXT = ("Lean theorems over an executable model of all 26 AOEF adapter modules (data classes, document classes, "
               "save = first-wins tables over the post-order traversal, single-pass loader with lenient / strict "
@@ -113,7 +114,73 @@ def _impl_load_doc(inp):
     return aoef_impl.load_doc(inp["doc"], inp.get("audio_dir"))
 
 
+_GATE_DOCS = {}
+
+
+def _impl_load_gate(inp):
+    """io.load on a file with the given suffix / version / collection type, format and type arguments"""
+    import json as _json
+    import os as _os
+    from soundevent import io
+    from .. import leanio as _leanio
+    ty = inp["doc_type"]
+    if ty not in _GATE_DOCS:
+        cj = aoefgen.gen_collection(random.Random("gate:" + ty), ty, size=0.5)
+        _obj, path = aoef_impl.save_real(cj, None)
+        _GATE_DOCS[ty] = _json.load(open(path))
+        aoef_impl.cleanup(path)
+    doc = dict(_GATE_DOCS[ty], version=inp["version"])
+    path = _os.path.join(_leanio.run_dir(), "gate" + (".json" if inp["suffix_json"] else inp.get("suffix", ".txt")))
+    if _os.path.exists(path):
+        _os.remove(path)
+    if inp["exists"]:
+        _json.dump(doc, open(path, "w"))
+    try:
+        obj = io.load(path, format=inp.get("format"), type=inp.get("type"))
+        want = dict(aoef.TYPE_OF_CLASS)[type(obj).__name__]
+        return {"ok": True} if want == ty else {"ok": False, "loaded_type": want}
+    finally:
+        aoef_impl.cleanup(path)
+
+
+def _gate_cases():
+    out = []
+    for ex in (True, False):
+        for sj in (True, False):
+            for fmt in (None, "aoef", "other"):
+                for ver in ("1.1.0", "1.0.0", "2"):
+                    for ty in ("dataset", "evaluation", "annotation_set"):
+                        for rt in (None, ty, "recording_set", "model_run"):
+                            out.append({"exists": ex, "suffix_json": sj, "format": fmt, "type": rt, "version": ver,
+                                        "doc_type": ty})
+    return out
+
+
+def _impl_history(inp):
+    """consecutive round trips in this one process (and one fresh-loader process): nothing may be remembered"""
+    return [_impl_roundtrip(st) for st in inp["steps"]]
+
+
+def _holds_history(ctx, inp, out):
+    for i, (st, o) in enumerate(zip(inp["steps"], out)):
+        msg = _holds_roundtrip(ctx, st, o)
+        if msg:
+            return f"step {i + 1} of {len(inp['steps'])} (after earlier saves/loads in the same process): {msg}"
+    return None
+
+
+def _cmp_history(inp, io, mo):
+    for i, (st, a, b) in enumerate(zip(inp["steps"], io, mo)):
+        msg = _cmp_roundtrip(st, a, b)
+        if msg:
+            return f"step {i + 1}: {msg}"
+    return None
+
+
 OPS = {
+    "history": Op("history", _impl_history, holds=_holds_history, compare=_cmp_history,
+                  nontrivial=lambda i, o: all("val" in x for x in o)),
+    "load_gate": Op("load_gate", _impl_load_gate, nontrivial=lambda i, o: True),
     "roundtrip": Op("roundtrip", _impl_roundtrip, holds=_holds_roundtrip, compare=_cmp_roundtrip,
                     nontrivial=lambda i, o: "val" in o),
     "save_doc": Op("save_doc", _impl_save_doc, compare=_cmp_save_doc, determined=False, model_op="save",
@@ -276,6 +343,17 @@ def _correspondence(ctx):
     ctx.tally("fresh-process loads", len(fresh))
     # the loader on documents, pristine and mutated
     ctx.run_cases(OPS["load_doc"], _load_cases(ctx, ctx.rng, cases[::2], 2))
+    # histories: the same objects (same uuids) with revised content, and other collection types over the same
+    # objects, saved / loaded later in the same process - nothing may be remembered from earlier calls
+    hist = []
+    for c in cases[::4] + rich:
+        rev = dict(c, collection=aoefgen.revise(c["collection"]), n=1)
+        hist.append({"steps": [dict(c, n=1), rev, dict(rev, fresh=True), dict(c, n=1, fresh=True)]})
+    ctx.run_cases(OPS["history"], hist)
+    ctx.tally("history cases (4 steps each)", len(hist))
+    # the file-level gate of io.load: every combination of existence / suffix / format / version / type
+    ctx.run_cases(OPS["load_gate"], _gate_cases())
+    ctx.exhaustive["load_gate"] = "exists x suffix x format{None,aoef,other} x version{3} x doc type{3} x requested type{4}"
     # larger graphs
     big = _gen_cases(ctx, ctx.rng, ctx.budget(1, 8), size=2.5)
     ctx.run_cases(OPS["roundtrip"], big)
